@@ -1,17 +1,38 @@
 (* Correspondence cases for C06: inputs plus what the Go implementation
    returned; [check] recomputes with the model of Model/TxCodec.v. *)
 From Coq Require Import List ZArith NArith Bool.
+From Coq Require Export Uint63.
 Require Import Mixin.Base.Res.
 Require Export Mixin.Model.TxCodec.
 Import ListNotations.
 Open Scope N_scope.
 
+(* Case terms carry their data as primitive 63-bit integers (elaborating a
+   [list N] literal costs about a millisecond per byte): a byte string is its
+   length and its bytes packed seven per word, big-endian; numbers, hashes,
+   keys, signatures and amounts are [n w] or [V len words]. *)
+Definition n (i : int) : N := Z.to_N (Uint63.to_Z i).
+Fixpoint word_bytes (k : nat) (v : N) (acc : bytes) : bytes :=
+  match k with
+  | O => acc
+  | S k' => word_bytes k' (N.shiftr v 8) (N.land v 255 :: acc)
+  end.
+Fixpoint unpack (len : nat) (ws : list int) : bytes :=
+  match ws with
+  | [] => []
+  | w :: ws' => if Nat.leb len 7 then word_bytes len (n w) []
+                else word_bytes 7 (n w) (unpack (len - 7) ws')
+  end.
+Definition B (len : int) (ws : list int) : bytes := unpack (N.to_nat (n len)) ws.
+Definition V (len : int) (ws : list int) : N := be_dec (B len ws).
+
 Inductive case :=
 (* common.UnmarshalVersionedTransaction(b): Ok decoded fields / Err / Panic *)
 | CUnmarshal (b : bytes) (obs : res tx)
 (* a transaction value: Encoder.EncodeTransaction, VersionedTransaction.Marshal,
-   VersionedTransaction.PayloadMarshal, each under recover *)
-| CEncode (t : tx) (raw : res bytes) (mar : res bytes) (pay : res bytes).
+   VersionedTransaction.PayloadMarshal, each under recover; [None] = the same
+   bytes as EncodeTransaction returned *)
+| CEncode (t : tx) (raw : res bytes) (mar : res (option bytes)) (pay : res (option bytes)).
 
 Definition opt_eqb {A} (e : A -> A -> bool) (a b : option A) : bool :=
   match a, b with
@@ -61,7 +82,9 @@ Definition check (c : case) : bool :=
   match c with
   | CUnmarshal b obs => res_eqb tx_eqb (unmarshal b) obs
   | CEncode t raw mar pay =>
+      let same (o : option bytes) : res bytes :=
+        match o with Some x => Ok x | None => raw end in
       res_eqb bytes_eqb (encode_transaction t) raw
-      && res_eqb bytes_eqb (marshal t) mar
-      && res_eqb bytes_eqb (payload_marshal t) pay
+      && res_eqb bytes_eqb (marshal t) (match mar with Ok o => same o | Err => Err | Panic => Panic end)
+      && res_eqb bytes_eqb (payload_marshal t) (match pay with Ok o => same o | Err => Err | Panic => Panic end)
   end.
